@@ -14,7 +14,7 @@ COMMON_NOTE = ('Trusted base: nightly rustc 1.97 (MIR construction, drop elabora
                'acquisitions is reported; field vocabulary is verified first (a rename fails closed, exit 2). What is '
                'NOT vocabulary, and is seen through by the engine: private helper functions / traits / modules / field '
                'groups / argument bundles, private outcome enums (converted to the public Poll shape the way the crate '
-               'converts them), generic helper instances, associated constants, parameter and local names (81 independent '
+               'converts them), generic helper instances, associated constants, parameter and local names (83 independent '
                'behaviour-preserving refactorings are part of the selftest and must stay silent). Control-flow paths '
                'are enumerated with loops unrolled twice (quick) / three times (thorough); paths beyond are not. ')
 
